@@ -197,7 +197,8 @@ def make_target(style):
     return t
 
 
-FAIL_KINDS = ['missing-path', 'failing-T', 'raising-callable', 'match-type', 'check', 'exhausted-coalesce', 'missing-attr']
+FAIL_KINDS = ['missing-path', 'failing-T', 'raising-callable', 'match-type', 'check', 'exhausted-coalesce', 'missing-attr',
+              'exhausted-coalesce-skip']
 
 
 class SpecGen:
@@ -228,6 +229,13 @@ class SpecGen:
                 return Match({'k': str, 'zz%d' % n: object})
             if k == 'check':
                 return Check(T['k'], equal_to=-n)
+            if k == 'exhausted-coalesce-skip':
+                # alternatives that SUCCEED but are rejected by skip=, mixed with raising ones (1 or 2), in any order
+                alts = [OkFn(self.tag()) for _ in range(self.rng.randint(1, 2))] + \
+                       [self.rng.choice(['zz%d' % n, T['yy%d' % n], (OkFn(self.tag()), OkFn(self.tag()), 'xx%d' % n)])
+                        for _ in range(self.rng.randint(1, 2))]
+                self.rng.shuffle(alts)
+                return Coalesce(*alts, skip=lambda v: True)
             return Coalesce('zz%d' % n, T['yy%d' % n], ('a', 'xx%d' % n))
         # (ok steps hand the same target on, so that the evaluation reaches the planted failure)
         r = self.rng.random()
@@ -242,7 +250,14 @@ class SpecGen:
     def failing_alt(self):
         """an alternative that fails with a GlomError (to be recovered from)"""
         n = self.tag()
-        return self.rng.choice(['nope%d' % n, T['nope%d' % n], ('a', 'nope%d.x' % n), Match(int), Coalesce('n1_%d' % n, 'n2_%d' % n)])
+        ok = lambda: OkFn(self.tag())
+        return self.rng.choice([
+            'nope%d' % n, T['nope%d' % n], ('a', 'nope%d.x' % n), Match(int), Coalesce('n1_%d' % n, 'n2_%d' % n),
+            # chains of 3-5 links failing at the last / a middle link (tuple, Pipe, Switch as a middle link)
+            (ok(), ok(), 'nope%d' % n), (ok(), ok(), ok(), T['nope%d' % n]), Pipe(ok(), ok(), 'nope%d' % n, ok()),
+            (ok(), Switch([(ok(), ok())]), ok(), 'nope%d' % n), (ok(), (ok(), ok(), 'nope%d' % n)),
+            Coalesce(ok(), 'nopeA%d' % n, skip=lambda v: True), Coalesce('nopeB%d' % n, ok(), ok(), skip=lambda v: True),
+        ])
 
     def gen(self, depth, style):
         self.style = style
@@ -424,6 +439,34 @@ def check_message(col, msg, root, target, desc, key, width):
                 return col.violation('C05/stale-branch-in-trace' if stale else 'C05/error-line-of-no-raising-frame',
                                      '%s: error line %r %s\n%s' % (desc, ln.text, 'belongs to a branch that was recovered from' if stale
                                                                    else 'matches no frame that raised', msg), wit)
+    # (7) an error is printed where it was first raised, once: no error text twice among the lines of one block
+    def blocks(items, acc):
+        own = [it for it in items if not isinstance(it, tuple)]
+        acc.append(own)
+        for it in items:
+            if isinstance(it, tuple):
+                for blk in it[1]:
+                    blocks(blk, acc)
+        return acc
+    for own in blocks(tree, []):
+        errs = [ln.text for ln in own if ln.kind == 'Error']
+        col.count('blocks_checked')
+        if len(errs) != len(set(errs)):
+            dup = next(e for e in errs if errs.count(e) > 1)
+            return col.violation('C05/error-printed-twice-in-one-branch',
+                                 '%s: the error %r is printed twice within one branch (it belongs after the spec that raised it, once)\n%s'
+                                 % (desc, dup, msg), wit)
+        # an error line inside a branch must follow the spec line of a frame that raised exactly that error
+        for i, ln in enumerate(own):
+            if ln.kind != 'Error':
+                continue
+            prev = next((own[j] for j in range(i - 1, -1, -1) if own[j].kind == 'Spec'), None)
+            if prev is None:
+                continue
+            if not any(f.outcome == 'raise' and matches(prev.text, f.spec) and exc_line(f.exc) == ln.text for f in frames):
+                return col.violation('C05/error-line-after-a-spec-that-did-not-raise-it',
+                                     '%s: error line %r follows spec line %r, but no evaluation of that spec raised it\n%s'
+                                     % (desc, ln.text, prev.text, msg), wit)
     col.count('messages_fully_checked')
     return True
 
